@@ -340,7 +340,31 @@ def do_step(W, step):
     complexes = [n for n in W.pool if W.kind[n] == 'complex']
     arrays = [n for n in W.pool if W.kind[n] == 'array']
     op = rng.choice(['prim', 'prim', 'ccust', 'child_attrs', 'child_attrs_all', 'array', 'array_unwrapped', 'iterable',
-                     'mandatory', 'mandatory', 'subclass', 'newclass', 'append', 'insert', 'array_cust'])
+                     'mandatory', 'mandatory', 'subclass', 'newclass', 'append', 'insert', 'array_cust', 'child_attrs_late', 'child_attrs_late'])
+    if op == 'child_attrs_late':
+        # child_attrs for a field the class does not have yet: it is to be applied when that field is added - to this variant
+        # (and the variants derived from it), to no other
+        if not hasattr(W, 'late_req'):
+            W.late_req, W.late_names = {}, []
+        c = rng.choice(complexes)
+        if c not in W.decl:
+            return None
+        free = [n for n in W.late_names if n not in getattr(W, 'late_used', set())]
+        if free and rng.random() < .6:
+            fn = rng.choice(free)
+        else:
+            fn = 'late_f%d' % step
+            W.late_names.append(fn)
+        root = c
+        if fn in W.decl.get(c, ()):
+            return None
+        ca = rng.choice((dict(nillable=False), dict(min_occurs=1), dict(min_occurs=1, nillable=False)))
+        W.log.append((step, op, c, fn, repr(ca)))
+        name = W.fresh('V')
+        new = W.pool[c].customize(type_name='%s_%sh%d' % (W.pool[c].get_type_name(), name, W.hist_id), child_attrs={fn: ca})
+        W.add(name, new, 'complex', parents=[c], decl=list(W.decl[c]), base=W.base.get(c))
+        W.late_req[name] = {fn: ca}
+        return op, name, set(), {'parent': c}
     if op == 'prim':
         p = rng.choice(simple)
         f, g = rand_facets(rng, W.kind[p])
@@ -378,6 +402,10 @@ def do_step(W, step):
         # a variant whose children differ is a different XSD type: the documented use is to name it
         new = W.pool[c].customize(type_name='%s_%sh%d' % (W.pool[c].get_type_name(), name, W.hist_id), **kw)
         W.add(name, new, 'complex', parents=[c], decl=list(W.decl[c]), base=W.base.get(c))
+        if op == 'child_attrs_all':
+            if not hasattr(W, 'caa_req'):
+                W.caa_req = {}
+            W.caa_req[name] = dict(kw['child_attrs_all'])
         return op, name, set(), {'requested': kw, 'parent': c}
     if op in ('array', 'array_unwrapped', 'iterable'):
         t = rng.choice(list(W.pool))
@@ -442,6 +470,13 @@ def do_step(W, step):
             return None
         c = rng.choice(roots)
         fn = 'late%d' % step
+        pend = [n for n in getattr(W, 'late_names', []) if n not in getattr(W, 'late_used', set()) and any(
+            n in W.late_req.get(k, {}) for k in W.pool if k in W.decl and _is_variant_of(W, k, c))]
+        if pend and rng.random() < .7:
+            fn = rng.choice(pend)
+            if not hasattr(W, 'late_used'):
+                W.late_used = set()
+            W.late_used.add(fn)          # a field name is added once in a history
         t = rng.choice(simple)
         exp = {c} | W.descendants(c)
         if op == 'append':
@@ -458,8 +493,34 @@ def do_step(W, step):
                     W.decl[k].append(fn)
                 else:
                     W.decl[k].insert(idx, fn)
-        return op, None, exp, {'target': c, 'field': fn}
+        return op, None, exp, {'target': c, 'field': fn, 'type': t}
     return None
+
+
+def late_expectation(W, k, c, fn):
+    """child_attrs requested for field fn along the customize chain from c down to k (nearest request wins per attribute)"""
+    chain = []
+    x = k
+    guard = 0
+    while x != c and guard < 50:
+        guard += 1
+        chain.append(x)
+        ps = [p for p in W.parents.get(x, ()) if p == c or _is_variant_of(W, p, c)]
+        if not ps:
+            break
+        x = ps[0]
+    # child_attrs_all also covers fields added later (the nearest such request in the chain replaces earlier ones);
+    # the nearest child_attrs request for the named field is applied on top (whether an older pending request for the same
+    # field should be merged attribute by attribute is not stated anywhere; the implemented replacement is taken as given)
+    caa, ca = None, {}
+    for x in reversed(chain):
+        if x in getattr(W, 'caa_req', {}):
+            caa = W.caa_req[x]
+        if fn in getattr(W, 'late_req', {}).get(x, {}):
+            ca = dict(W.late_req[x][fn])      # a newer request for the same field replaces the pending one as a whole
+    out = dict(caa or {})
+    out.update(ca)
+    return out
 
 
 def _is_variant_of(W, k, c):
@@ -617,6 +678,22 @@ def run_history(R, seed, hist_id, steps, with_schema=True):
                 if not present:
                     viol(W, 'field %s added to %s is missing from its %s %s' % (fn, info['target'], 'variant' if _is_variant_of(W, k, info['target']) else 'descendant', k),
                          'added_field_missing_in_variant', step)
+                    continue
+                # pending child_attrs: applied to the variants that asked for them, and to those only
+                if fn in getattr(W, 'late_names', ()) and k in W.decl and (k == info['target'] or _is_variant_of(W, k, info['target'])):
+                    want = late_expectation(W, k, info['target'], fn) if k != info['target'] else {}
+                    try:
+                        ft = m.get_flat_type_info(m)[fn]
+                    except Exception:
+                        continue
+                    base_t = W.pool[info['type']]
+                    R.count('late_child_attrs_checked')
+                    for a in ('nillable', 'min_occurs'):
+                        exp_v = want.get(a, getattr(base_t.Attributes, a))
+                        got_v = getattr(ft.Attributes, a)
+                        if got_v != exp_v:
+                            viol(W, 'field %s added to %s: in variant %s it has %s=%r, the child_attrs requested along its derivation say %r' % (
+                                fn, info['target'], k, a, got_v, exp_v), 'late_child_attrs_%s' % ('leaked' if a not in want else 'lost'), step)
         # the new model carries what was requested and nothing else
         if newname is not None and 'requested' in info:
             check_new(W, step, op, newname, info)
